@@ -31,6 +31,7 @@ def cases(tier, seed):
     yield from extras(tier, seed)
     yield from fixed_cases()
     yield from sym_cases(tier, seed)
+    yield from tagorder_cases(tier, seed)
     if tier == 'thorough':
         yield from cases7(tier, seed)
     D = 3 if tier == 'quick' else 4
@@ -50,6 +51,50 @@ def cases(tier, seed):
                     nseg = [geom.auto_nseg(np.linalg.norm(P[a] - P[b]), nseg * lam) for a, b in es]
                 st = [dict(a=a, b=b, n=nseg[i], r=rad[i] * lam) for i, (a, b) in enumerate(es)]
                 yield dict(env='ideal' if ground else 'free', f=f, lam=lam, pts=pts, st=st)
+
+
+def tagorder_cases(tier, seed):
+    """three parallel elements of which some carry explicit tags; the feed (and a load) are addressed through the tag of one
+    explicitly tagged element: every listing order of the three wires describes the same antenna"""
+    rot, sc, f = geom.variant(seed)
+    lam = geom.C_MININEC / f
+    for pattern in ((1, 2, None), (2, 3, None), (3, None, 1), (None, 2, None), (5, None, None), (2, 1, None)):
+        yield dict(tagorder=list(pattern), env='free', f=f, lam=lam)
+
+
+def eval_tagorder(c):
+    import itertools as it
+    import mininec.mininec as mm
+    lam, pattern = c['lam'], c['tagorder']
+    r = 2e-4 * lam
+    xs = (-0.2 * lam, 0.0, 0.15 * lam)
+    hl = (0.25 * lam, 0.235 * lam, 0.22 * lam)
+    ws = [geom.wire([x, -h, 0.1 * lam], [x, h, 0.1 * lam], 10, r, tag=t) for x, h, t in zip(xs, hl, pattern)]
+    fed = [i for i, t in enumerate(pattern) if t is not None][0]
+    zs, viol = {}, []
+    for order in it.permutations(range(3)):
+        m = geom.build(dict(f=c['f'], env='free', wires=[ws[i] for i in order]), sources=False, loads=False)
+        try:
+            m.register_source(mm.Excitation(1 + 0j), 4, pattern[fed])
+            m.register_load(mm.Impedance_Load(25 + 5j), 2, pattern[fed])
+            m.compute()
+        except Exception as e:
+            viol.append(('TAGORDER-REJECTED', 'tags %s listed in order %s: %s' % (pattern, order, str(e)[:80])))
+            continue
+        z = m.sources[0].impedance
+        # independent of the tag bookkeeping: where the fed pulse sits
+        x_fed = float(m.pulses[m.sources[0].idx].point[0])
+        if abs(x_fed - xs[fed]) > 1e-9 * lam:
+            viol.append(('TAGORDER-FEED', 'tags %s listed in order %s: the source addressed by tag %s sits on the element at x=%.4g, the element with that tag is at x=%.4g' % (pattern, order, pattern[fed], x_fed, xs[fed])))
+        zs[order] = z
+    if zs:
+        z0 = list(zs.values())[0]
+        dev = max(abs(z - z0) / abs(z0) for z in zs.values())
+        if dev > 1e-9:
+            viol.append(('TAGORDER-Z', 'tags %s: feed impedance depends on the listing order: %s' % (pattern, {k: complex(np.round(v, 4)) for k, v in zs.items()})))
+    else:
+        dev = 0.0
+    return dict(viol=viol[:4], canon=['tagorder|%s|%s' % (pattern, o) for o in zs], nontriv=[True] * len(zs), trans=6, traces=len(zs), evals=6, dev=dev, outcome='tagorder')
 
 
 def sym_cases(tier, seed):
@@ -409,6 +454,8 @@ def evaluate(c):
         return eval_extra(c)
     if 'sym' in c:
         return eval_sym(c)
+    if 'tagorder' in c:
+        return eval_tagorder(c)
     ground = c['env'] != 'free'
     rep = rep_case(c)
     reason = geom.domain(rep, c['lam'], ground=ground)
